@@ -73,7 +73,7 @@ def _get_const_repr(const_node):
             if not np.isfinite(array[0]):
                 return None  # "nan" / "inf" are not python literals
             return str(array[0])
-        if rank == 1 and tensor_proto.dims[0] < 5:
+        if rank == 1 and 0 < tensor_proto.dims[0] < 5:  # "[]" cannot be typed by the converter
             nparray = onnx.numpy_helper.to_array(tensor_proto)  # noqa: TID251
             if not np.all(np.isfinite(nparray)):
                 return None
